@@ -6,6 +6,7 @@ pub(crate) mod c02;
 pub(crate) mod c03;
 pub(crate) mod c04;
 pub(crate) mod c05;
+pub(crate) mod c06;
 pub(crate) mod c07;
 pub(crate) mod c08;
 pub(crate) mod c09;
@@ -39,6 +40,7 @@ pub(crate) fn run(id: &str, opts: &Opts) -> Option<i32> {
         "C03" => c03::run(opts, &mut report),
         "C04" => c04::run(opts, &mut report),
         "C05" => c05::run(opts, &mut report),
+        "C06" => c06::run(opts, &mut report),
         "C07" => c07::run(opts, &mut report),
         "C08" => c08::run(opts, &mut report),
         "C09" => c09::run(opts, &mut report),
